@@ -26,13 +26,16 @@ git apply "$SEED/patch.diff" || { echo "VERIFY-ERROR: patch.diff does not apply"
 cargo test -p "$CRATE" --offline "${DEMO_ARGS[@]}" > /var/tmp/seedverify-demo-with.log 2>&1; RC_WITH=$?
 git checkout -q -- . ; git clean -fdq -e Cargo.lock ; git apply "$SEED/patch.diff"
 run_suite $CRATES > /var/tmp/seedverify-suite-with.txt
-SUITE_SAME=no; diff -q "$BASE" /var/tmp/seedverify-suite-with.txt > /dev/null && SUITE_SAME=yes
+# the patch must not make any test fail that passes without it (tests that fail without it - they need a
+# live cluster - may fail or not)
+SUITE_SAME=no; [ -z "$(comm -13 "$BASE" /var/tmp/seedverify-suite-with.txt)" ] && SUITE_SAME=yes
 if [ $SUITE_SAME = no ]; then
   # loopback tests can collide with other jobs on this machine (AddrInUse): a test only counts as
   # broken by the patch if it fails in two consecutive runs
   run_suite $CRATES > /var/tmp/seedverify-suite-with2.txt
   comm -12 /var/tmp/seedverify-suite-with.txt /var/tmp/seedverify-suite-with2.txt > /var/tmp/seedverify-suite-both.txt
-  diff -q "$BASE" /var/tmp/seedverify-suite-both.txt > /dev/null && SUITE_SAME=yes
+  [ -z "$(comm -13 "$BASE" /var/tmp/seedverify-suite-both.txt)" ] && SUITE_SAME=yes
+  [ $SUITE_SAME = no ] && { echo "tests failing only with the patch:"; comm -13 "$BASE" /var/tmp/seedverify-suite-both.txt; }
 fi
 git checkout -q -- . ; git clean -fdq -e Cargo.lock
 echo "demo without patch: exit $RC_WITHOUT ($(grep -E '^test result' /var/tmp/seedverify-demo-without.log | tail -1))"
